@@ -86,6 +86,7 @@ def run_mode(mode, tier, seed, key):
         return reqs, ans, False
 
 
+STAGE_EXTRA_GEN = {"s6": "s6-gen", "s7": "s6-gen"}   # stage kind -> additional harness generator for that stage
 STAGE_STATS = collections.Counter()   # filled by the stage comparisons (fragile / branch / hypothesis counts)
 
 
@@ -102,6 +103,9 @@ def stage_compare(kind, exp, out):
     if kind in ("s6", "s7"):
         from checks import stages_s6
         return stages_s6.compare(kind, exp, out, STAGE_STATS)
+    if kind in ("s1", "s2", "s3"):
+        from checks import s13
+        return s13.compare(kind, exp, out, STAGE_STATS)
     if exp == out:
         return None
     et, ot = exp.split(), out.split()
@@ -187,7 +191,27 @@ def run_stages(kinds, tier, seed, key):
         r2, e2 = vlib.read_cases(tcases)
         reqs, exps, kinds = reqs + r2, exps + e2, list(kinds) + ["s5pg"]
         del S5_FRAGILE[:]
-    outs = vlib.run_model([stage_request(reqs[i].split(" ", 1)[0], reqs[i], exps[i]) for i in sel])
+    # additional, stage-specific dumps (same line format), e.g. `s6-gen`: special Wyckoff positions, triclinic, monoclinic
+    for gen in sorted({STAGE_EXTRA_GEN[k] for k in kinds if k in STAGE_EXTRA_GEN}):
+        extra = os.path.join(cdir, f"{gen}_{tier}_{seed}.cases")
+        with vlib.Lock(f"{gen}_{tier}_{seed}"):
+            if not os.path.exists(extra):
+                r = vlib.harness([gen, tier, extra + ".tmp"], seed=seed)
+                if r.returncode != 0:
+                    raise RuntimeError(gen + " failed: " + r.stderr[-2000:])
+                os.replace(extra + ".tmp", extra)
+        q2, e2 = vlib.read_cases(extra)
+        keep = [i for i, q in enumerate(q2) if STAGE_EXTRA_GEN.get(q.split(" ", 1)[0]) == gen]
+        reqs, exps = reqs + [q2[i] for i in keep], exps + [e2[i] for i in keep]
+    sel = [i for i, q in enumerate(reqs) if q.split(" ", 1)[0] in kinds]
+    # model answers are cached per tree key (C05 and C06 share the s6/s7 lines)
+    ocache = os.path.join(cdir, f"stageout_{'_'.join(sorted(set(kinds)))}_{tier}_{seed}.out")
+    outs = [l.rstrip("\n") for l in open(ocache)] if os.path.exists(ocache) else []
+    if len(outs) != len(sel) or any(o.startswith("MODEL-CRASH") for o in outs):
+        outs = vlib.run_model([stage_request(reqs[i].split(" ", 1)[0], reqs[i], exps[i]) for i in sel])
+        with open(ocache + f".{os.getpid()}.tmp", "w") as f:
+            f.write("\n".join(outs) + "\n")
+        os.replace(ocache + f".{os.getpid()}.tmp", ocache)
     bad = []
     for i, o in zip(sel, outs):
         m = stage_compare(reqs[i].split(" ", 1)[0], exps[i], o)
